@@ -70,6 +70,7 @@ BLOCKS = {
     "simba": (lambda: EvolvableSimBa(3, 2, **ENC_SIMBA), lambda: _x((3,))),
     "resnet": (lambda: EvolvableResNet([2, 6, 6], 2, 2, 3, 1, 2, scale_factor=2, min_channel_size=1, max_channel_size=5, min_blocks=1, max_blocks=3), lambda: _x((2, 6, 6))),
     "multi_dict": (lambda: EvolvableMultiInput(DCT, 3, **ENC_MULTI), _xd),
+    "multi_dict_bn": (lambda: EvolvableMultiInput(DCT, 3, cnn_config=dict(ENC_CNN, layer_norm=True), mlp_config=dict(ENC_MLP), vector_space_mlp=True, **LAT), _xd),
     "multi_tuple": (lambda: EvolvableMultiInput(TUP, 3, cnn_config=dict(ENC_CNN), vector_space_mlp=False, **LAT),
                     lambda: (_x((2, 8, 8)), _x((3,)))),
     "make_evo_mlp": (lambda: MakeEvolvable(torch.nn.Sequential(torch.nn.Linear(3, 4), torch.nn.ReLU(), torch.nn.Linear(4, 3), torch.nn.ReLU(), torch.nn.Linear(3, 2)),
@@ -85,6 +86,7 @@ BLOCKS = {
     "q_img_bn": (lambda: QNetwork(IMG, spaces.Discrete(2), encoder_config=dict(ENC_CNN, layer_norm=True), head_config=dict(HEAD), **LAT), lambda: _x((2, 8, 8))),
     "q_seq": (lambda: QNetwork(SEQ, spaces.Discrete(2), encoder_config=dict(ENC_LSTM), head_config=dict(HEAD), recurrent=True, **LAT), lambda: _x((4, 3))),
     "q_simba": (lambda: QNetwork(VEC, spaces.Discrete(2), encoder_config=dict(ENC_SIMBA), head_config=dict(HEAD), simba=True, **LAT), lambda: _x((3,))),
+    "q_dict_bn": (lambda: QNetwork(DCT, spaces.Discrete(2), encoder_config=dict(ENC_MULTI, cnn_config=dict(ENC_CNN, layer_norm=True)), head_config=dict(HEAD), **LAT), _xd),
     "q_dict": (lambda: QNetwork(DCT, spaces.Discrete(2), encoder_config=dict(ENC_MULTI), head_config=dict(HEAD), **LAT), _xd),
     "rainbow": (lambda: RainbowQNetwork(VEC, spaces.Discrete(2), support=torch.linspace(0, 1, 3), num_atoms=3,
                                         encoder_config=dict(ENC_MLP), head_config=dict(HEAD), **LAT), lambda: _x((3,))),
